@@ -16,7 +16,7 @@ RULE = ('engine histories (C01-C03 generator) on pty/fd transports driven from a
         'outcome the engine reached), attribute changes between calls, > 1024 descriptors with use_poll. Deliveries of the asyncio '
         'protocol are recorded through the public logfile_read attribute. '
         'An awaited call never reports TIMEOUT before its time is up (C14.early_timeout). '
-        'Non-trivial: >= 1 awaited call that consumed a read; distinct by trace digest')
+        'Ninth round: awaitables made before earlier operations and awaited later (scenario field prepare); C14.zero: an awaited call with timeout 0 must look at what the kernel holds readable when it begins, as the blocking call does; negative timeouts. Non-trivial: >= 1 awaited call that consumed a read; distinct by trace digest')
 
 COMP = dict(COMPONENTS)
 COMP['real'] = COMPONENTS['real'] + ['pexpect._async_w_await (expect_async, PatternWaiter)',
@@ -30,6 +30,9 @@ def nontrivial(scn, info):
 
 def tag(scn, v):
     c = v.detail.get('call') or {}
+    if scn.get('second_loop_at') is not None and v.clause == 'C14.C04_other_exception' and 'Event loop is closed' in (v.msg or ''):
+        # the known limitation of the asyncio path: the transport made under the first event loop is cached on the object
+        return 'second_event_loop'
     return '%s/%s' % ('await' if any(op.get('async') for op in scn.get('ops', [])) else 'sync', c.get('api'))
 
 
